@@ -134,6 +134,7 @@ def unit_steps(a):
                 yield {"sub": "step", "dialect": d, "kw": kw, "bullet": "", "spaces": 0, "indent": 0}
                 yield {"sub": "step", "dialect": d, "kw": kw, "bullet": "", "spaces": 0, "indent": 2}
     sweep(stats, gen(), check_step)
+    sweep(stats, [{"sub": "table-intact"}], check_table_intact)
     return stats
 
 
@@ -198,7 +199,26 @@ def unit_tags(a):
     return stats
 
 
+def check_table_intact(case, stats):
+    """using the Markdown matcher must not modify the shared language table"""
+    for d in ("en", "fr", "ht"):
+        for line in ("* Given x\n", "- Soit y\n", "# Feature: f\n", "## Scenario: s\n", "  | a |\n", "`@t`\n", "prose\n"):
+            m = MD(d)
+            for meth in ("match_StepLine", "match_FeatureLine", "match_ScenarioLine", "match_TableRow", "match_TagLine", "match_Other"):
+                getattr(m, meth)(tok(line))
+    stats.case("language-table", True, sample=case)
+    prob = gh.language_table_problem()
+    if prob:
+        raise Violation(case, "after using the Markdown matcher the shared language table is modified: " + prob)
+    r = gh.parse("Feature: f\n Scenario: s\n  Given a\n  When b\n  Then c\n  And d\n")
+    types = [s_["keywordType"] for s_ in r[1]["feature"]["children"][0]["scenario"]["steps"]] if r[0] == "ok" else r[1]
+    if types != ["Context", "Action", "Outcome", "Conjunction"]:
+        raise Violation(case, "after using the Markdown matcher a classic parse reports keyword types %r" % (types,))
+
+
 def replay(case, stats):
+    if case["sub"] == "table-intact":
+        return check_table_intact(case, stats)
     return {"title": check_title, "step": check_step, "table": check_table, "tags": check_tags}[case["sub"]](case, stats)
 
 
